@@ -78,6 +78,46 @@ func init() {
 		return strings.Join([]string{showMat(A.Mul(B).Mul(C)), showMat(A.Mul(B.Mul(C))), showVec(A.Mul(B).MulVec(v)),
 			showVec(A.MulVec(B.MulVec(v))), showMat(spatial.NewUnitMatrix3().Mul(A))}, "|")
 	})
+	pts3 := func(s string) []*spatial.Point3 {
+		var l []*spatial.Point3
+		if s == "[]" {
+			return l
+		}
+		for _, it := range strings.Split(s, "|") {
+			p := spatial.Point3(parseVec(it))
+			l = append(l, &p)
+		}
+		return l
+	}
+	op("vmaxpt", func(a []string) string {
+		p, err := spatial.MaxPoint(pts3(a[0]), parseVec(a[1]))
+		if err != nil {
+			return "ERR"
+		}
+		return showVec(spatial.Vector3(*p))
+	})
+	op("vminpt", func(a []string) string {
+		p, err := spatial.MinPoint(pts3(a[0]), parseVec(a[1]))
+		if err != nil {
+			return "ERR"
+		}
+		return showVec(spatial.Vector3(*p))
+	})
+	op("vuniq", func(a []string) string {
+		add := spatial.Point3(parseVec(a[1]))
+		r := spatial.UniqueAppend(pts3(a[0]), &add, atof(a[2]))
+		l := make([]string, len(r))
+		for i, p := range r {
+			l[i] = showVec(spatial.Vector3(*p))
+		}
+		return strings.Join(l, "|")
+	})
+	op("visclose", func(a []string) string {
+		if spatial.Point3(parseVec(a[0])).IsClose(spatial.Point3(parseVec(a[1])), atof(a[2])) {
+			return "true"
+		}
+		return "false"
+	})
 	op("vquat", func(a []string) string {
 		q := spatial.RotateBetweenVector(parseVec(a[0]), parseVec(a[1]))
 		return fbits(cz(q.W)) + ":" + fbits(cz(q.X)) + ":" + fbits(cz(q.Y)) + ":" + fbits(cz(q.Z))
@@ -133,7 +173,52 @@ func init() {
 	register("vec", func(n int) {
 		for i := 0; i < n; i++ {
 			a, b := vec(), vec()
-			switch rng.Intn(14) {
+			switch rng.Intn(18) {
+			case 14, 15: // the point with the largest / smallest projection on a direction (ties: the first one wins)
+				k := rng.Intn(5)
+				var l []string
+				for j := 0; j < k; j++ {
+					q := vec()
+					if j > 0 && rng.Intn(3) == 0 {
+						q = parseVec(l[rng.Intn(len(l))])
+					}
+					l = append(l, showVec(q))
+				}
+				ps := "[]"
+				if k > 0 {
+					ps = strings.Join(l, "|")
+				}
+				name := "vmaxpt"
+				if rng.Intn(2) == 0 {
+					name = "vminpt"
+				}
+				do(name, ps, showVec(b))
+			case 16: // append unless close to a listed point
+				k := rng.Intn(4)
+				var l []string
+				for j := 0; j < k; j++ {
+					l = append(l, showVec(vec()))
+				}
+				ps := "[]"
+				add := a
+				eps := []float64{0, 1e-9, 0.5, 2}[rng.Intn(4)]
+				if k > 0 {
+					ps = strings.Join(l, "|")
+					if rng.Intn(2) == 0 { // near a listed point: inside, on and outside the tolerance
+						q := parseVec(l[rng.Intn(k)])
+						d := []float64{0, eps, eps * 0.5, eps * 2, 1e-12}[rng.Intn(5)]
+						add = spatial.Vector3{X: q.X + d, Y: q.Y, Z: q.Z - d}
+					}
+				}
+				do("vuniq", ps, showVec(add), fbits(eps))
+			case 17:
+				eps := []float64{0, 1e-9, 0.5, 2}[rng.Intn(4)]
+				q := a
+				if rng.Intn(2) == 0 {
+					d := []float64{0, eps, eps * 0.5, eps * 2}[rng.Intn(4)]
+					q = spatial.Vector3{X: a.X + d, Y: a.Y - d, Z: a.Z}
+				}
+				do("visclose", showVec(a), showVec(q), fbits(eps))
 			case 0:
 				do("vadd", showVec(a), showVec(b))
 			case 1:
